@@ -155,12 +155,15 @@ func (p *ProjectRunner) runProcess(config *types.ProcessConfig) {
 		withIsMain(isMain),
 		withExtraArgs(extraArgs),
 	)
+	process.awaitingDeps.Store(true)
 	p.addRunningProcess(process)
 	p.waitGroup.Add(1)
 	go func(proc *Process) {
 		defer p.removeRunningProcess(proc)
 		defer p.waitGroup.Done()
-		if err = p.waitIfNeeded(proc.procConf); err != nil {
+		err = p.waitIfNeeded(proc.procConf)
+		proc.awaitingDeps.Store(false)
+		if err != nil {
 			log.Error().Msgf("Error: %s", err.Error())
 			log.Error().Msgf("Error: process %s won't run", proc.getName())
 			proc.wontRun()
